@@ -457,9 +457,35 @@ pub fn scrypt(password: &[u8], salt: &[u8], n: u32, r: u32, p: u32, dk_len: usiz
 
 /// Generates the specified amount of bytes from a CSPRNG
 pub fn secure_random(len: usize) -> Vec<u8> {
+    #[cfg(feature = "verif")]
+    if let Some(v) = verif::draw(len) {
+        return v;
+    }
     let mut data = vec![0u8; len];
     getrandom::fill(&mut data).expect("CSPRNG gen failed");
     data
+}
+
+/// Verification hook: a thread-local seam in front of the CSPRNG. With no
+/// source installed (the default) `secure_random` uses `getrandom` as always.
+#[cfg(feature = "verif")]
+pub mod verif {
+    use std::cell::RefCell;
+
+    type Source = Box<dyn FnMut(usize) -> Vec<u8>>;
+
+    thread_local! {
+        static RNG: RefCell<Option<Source>> = const { RefCell::new(None) };
+    }
+
+    /// Install (Some) or remove (None) the randomness source of this thread.
+    pub fn set_rng(source: Option<Source>) {
+        RNG.with(|r| *r.borrow_mut() = source);
+    }
+
+    pub(crate) fn draw(len: usize) -> Option<Vec<u8>> {
+        RNG.with(|r| r.borrow_mut().as_mut().map(|f| f(len)))
+    }
 }
 
 #[cfg(test)]
